@@ -2338,7 +2338,12 @@ func (app *App) stopActiveNodeOptimization(oldMaster string, activeNodes []strin
 
 	var nodes []*mysql.Node
 	for _, hostname := range activeNodes {
-		nodes = append(nodes, app.cluster.Get(hostname))
+		node := app.cluster.Get(hostname)
+		if node == nil {
+			// the published list may still name a host that is no longer registered
+			continue
+		}
+		nodes = append(nodes, node)
 	}
 
 	return app.optController.DisableAll(
